@@ -5,7 +5,7 @@ import re
 import vlib
 
 
-def record_and_validate(chk, tier):
+def record_and_validate(chk, tier, keep=1):
     thorough = tier == "thorough"
     exe = vlib.compile_harness("rec_vecnorm", ["rec_vecnorm.cpp"])
     w = chk.work
@@ -18,6 +18,10 @@ def record_and_validate(chk, tier):
             for line in open(f):
                 if line not in seen:
                     seen.add(line)
+                    # keep = k > 1: every k-th normalisation record (all Vec3(Vec4) records): C07's quick tier judges a third of
+                    # the records C08 judges in full - the pairing clauses it is after hold or fail for whole families at once
+                    if keep > 1 and line.startswith('{"e":"vec"') and (len(seen) + vlib.SEED) % keep != 0:
+                        continue
                     g.write(line)
     shards, n = vlib.split_file(allp, 16, w, "vnsh")
     return shards, allp
@@ -26,7 +30,7 @@ def record_and_validate(chk, tier):
 def run(pid, tier):
     chk = vlib.Check(pid, tier)
     chk.model("MCVecNorm", what="the VecNorm relations accept exact norms / exactly normalised vectors and reject values 16 ulp off, flipped signs and wrong ratios (non-vacuity and satisfiability of the relations), across the exponent range", workers=4)
-    shards, allp = record_and_validate(chk, tier)
+    shards, allp = record_and_validate(chk, tier, keep=3 if (pid == "C07" and tier != "thorough") else 1)
     # attribute rejections: VecNormTrace tags each BADREC with the property whose clause failed
     mine = lambda rec, what: {"event": rec.get("e", ""), "what": what}
     res = vlib.validate_shards("VecNormTrace", shards, timeout=7200)
@@ -46,6 +50,8 @@ def run(pid, tier):
         chk.assumptions += ["scope: squared components do not overflow (evaluated exactly by the spec)",
                             "length within 8 ulp (checked by squaring, no sqrt in the spec); normalisation clauses apply when the norm is a normal number: signs, ratios (2x2 minors) and unit length within 16 eps"]
     else:
+        if tier != "thorough":
+            chk.assumptions += ["quick tier: every third normalisation record of the shared recorder is judged here (C08's quick tier judges all of them for its own clauses; the thorough tier of this property judges all)"]
         chk.assumptions += ["normalize*/Vec3(Vec4) pairs: checked returns => identical bits; throws std::domain_error exactly for the null vector / only when a quotient is within a factor 4 of max"]
     return chk
 
